@@ -597,6 +597,10 @@ class SimLock(object):
 ACTIVE = {'sim': None}
 
 
+class LockSelfDeadlock(BaseException):
+    """A thread asked, without a timeout, for a non-reentrant lock it already holds: it would wait for ever."""
+
+
 class HybridLock(object):
     """What the code under test gets from `threading.Lock()` when that name is rebound (seams.ThreadingProxy):
     a simulated lock while a Sim is running its main task, a real lock otherwise.  A lock is only ever used in one
@@ -608,6 +612,7 @@ class HybridLock(object):
         HybridLock._count[0] += 1
         self.name = 'hlock%d' % HybridLock._count[0]
         self._real = threading.Lock()
+        self._real_owner = None
         self._sim_lock = None
         self._sim = None
 
@@ -624,12 +629,19 @@ class HybridLock(object):
     def acquire(self, blocking=True, timeout=-1):
         lk = self._mode()
         if lk is None:
-            return self._real.acquire(blocking, timeout)
+            me = threading.get_ident()
+            if blocking and (timeout is None or timeout < 0) and self._real_owner == me and self._real.locked():
+                raise LockSelfDeadlock('thread waits for ever for lock %s which it holds itself' % self.name)
+            ok = self._real.acquire(blocking, timeout)
+            if ok:
+                self._real_owner = me
+            return ok
         return lk.acquire(blocking, timeout)
 
     def release(self):
         lk = self._mode()
         if lk is None or (lk.owner is None and self._real.locked()):
+            self._real_owner = None
             return self._real.release()
         return lk.release()
 
